@@ -7,7 +7,7 @@
 (* Unicode 6 (normalisation of assigned characters is frozen, so JDK 17's  *)
 (* tables and the crate's agree).                                          *)
 (***************************************************************************)
-EXTENDS GenMn
+EXTENDS GenMn, Uni
 Passes == <<
   <<>>,                                        \* empty
   <<84, 82, 69, 90, 79, 82>>,                  \* TREZOR
@@ -28,12 +28,64 @@ Passes == <<
   <<84, 82, 69, 90, 79, 82, 32>>, <<84, 82, 69, 90, 79, 82, 10>>, <<32>>, <<120, 12288>>, <<32, 108, 101, 97, 100>>,   \* whitespace is significant:
   <<9, 120, 9>>, <<120, 13, 10>>, <<0>>, <<120, 0, 121>>                                                   \* trailing/leading blanks, NUL
 >>
+\* ---- the normalisation sweep --------------------------------------------------------------
+\* Every code point that normalisation does something with (about 19 000) and every pair in which canonical
+\* reordering crosses the boundary between the NFKDs of a code point and of a representative combining mark, packed
+\* into passphrases: pieces separated by "|" (a starter that composes with nothing), 48 code points / 32 pairs per
+\* passphrase, pieces of one passphrase having the same quick-check signature (so that a passphrase that IS
+\* already in some normalisation form exists for every class of piece).  One wrong code point changes the seed.
+Sep == 124
+Mn12   == Phrase(IdxFromBuffer(EntPattern(3, EntBytes(12), <<22, 1>>), 12))
+Groups == [g \in 0..7 |-> SelectSeq(Interesting, LAMBDA cp : Sig(<<cp>>) = g)]
+PerSingle == 48
+ChunksOf(len, per) == (len + per - 1) \div per
+SingleOff == [g \in 0..8 |-> IF g = 0 THEN 0 ELSE LET RECURSIVE sum(_)
+                                                      sum(q) == IF q < 0 THEN 0 ELSE ChunksOf(Len(Groups[q]), PerSingle) + sum(q - 1)
+                                                  IN sum(g - 1)]
+NSingles == SingleOff[8]
+SingleSweepAt(j) ==
+  LET g   == CHOOSE q \in 0..7 : SingleOff[q] < j /\ j <= SingleOff[q + 1]
+      k   == j - SingleOff[g] - 1
+      cps == SubSeq(Groups[g], PerSingle * k + 1, IF PerSingle * (k + 1) < Len(Groups[g]) THEN PerSingle * (k + 1) ELSE Len(Groups[g]))
+      pw  == Concat([i \in 1..Len(cps) |-> <<Sep, cps[i]>>])
+  IN  MItem("mnemonic.seed", "nfkd_every_code_point", [text |-> Mn12, pass |-> CpsToStr(pw)])
+
+NL == Len(LeftCands)
+NM == Len(MarkReps)
+PairA(k) == LeftCands[1 + ((k - 1) \div NM)]
+PairB(k) == MarkReps[1 + ((k - 1) % NM)]
+PairIdx == SelectSeq([k \in 1..(NL * NM) |-> k], LAMBDA k : NonLocal(PairA(k), PairB(k)))
+\* quick tier: the first and the last partner of every left code point
+EdgePos == SelectSeq([p \in 1..Len(PairIdx) |-> p],
+                     LAMBDA p : p = 1 \/ p = Len(PairIdx) \/ PairA(PairIdx[p - 1]) # PairA(PairIdx[p]) \/ PairA(PairIdx[p + 1]) # PairA(PairIdx[p]))
+Chosen == IF Thorough THEN PairIdx ELSE [i \in 1..Len(EdgePos) |-> PairIdx[EdgePos[i]]]
+PairGroups == [g \in 0..7 |-> SelectSeq(Chosen, LAMBDA k : Sig(<<PairA(k), PairB(k)>>) = g)]
+PerPair == 32
+PairOff == [g \in 0..8 |-> IF g = 0 THEN 0 ELSE LET RECURSIVE sum(_)
+                                                    sum(q) == IF q < 0 THEN 0 ELSE ChunksOf(Len(PairGroups[q]), PerPair) + sum(q - 1)
+                                                IN sum(g - 1)]
+NPairs == PairOff[8]
+PairSweepAt(j) ==
+  LET g   == CHOOSE q \in 0..7 : PairOff[q] < j /\ j <= PairOff[q + 1]
+      k   == j - PairOff[g] - 1
+      ks  == SubSeq(PairGroups[g], PerPair * k + 1, IF PerPair * (k + 1) < Len(PairGroups[g]) THEN PerPair * (k + 1) ELSE Len(PairGroups[g]))
+      pw  == Concat([i \in 1..Len(ks) |-> <<Sep, PairA(ks[i]), PairB(ks[i])>>])
+  IN  MItem("mnemonic.seed", "nfkd_reordering_pairs", [text |-> Mn12, pass |-> CpsToStr(pw)])
+\* the same pairs one per passphrase, WITHOUT any other character (the whole passphrase has the pair's signature)
+NLonePairs == IF Thorough THEN 4000 ELSE 400
+LonePairAt(j) ==
+  LET k == Chosen[1 + (((j - 1) * 7919) % Len(Chosen))]
+  IN  MItem("mnemonic.seed", "nfkd_reordering_pair_alone", [text |-> Mn12, pass |-> CpsToStr(<<PairA(k), PairB(k)>>)])
+
 Pool == <<228, 8491, 65313, 64257, 178, 54620, 119964, 128512, 97, 776, 32, 49, 241, 937>>
 NFixed == 5 * 2 * Len(Passes)
 NMix   == IF Thorough THEN 3000 ELSE 150
-Count  == NFixed + NMix
+Count  == NFixed + NMix + NSingles + NPairs + NLonePairs
 ItemAt(g) ==
-  IF g <= NFixed THEN
+  IF g > NFixed + NMix + NSingles + NPairs THEN LonePairAt(g - NFixed - NMix - NSingles - NPairs)
+  ELSE IF g > NFixed + NMix + NSingles THEN PairSweepAt(g - NFixed - NMix - NSingles)
+  ELSE IF g > NFixed + NMix THEN SingleSweepAt(g - NFixed - NMix)
+  ELSE IF g <= NFixed THEN
     LET n   == SizeOf(1 + ((g - 1) % 5))
         lay == ((g - 1) \div 5) % 2
         pw  == Passes[1 + ((g - 1) \div 10)]
